@@ -595,4 +595,248 @@ example : bufCount [.buffer, .buffer, .buffer, .get] = 3 ∧
 /-- a 2 × 3 grid: six distinct columns -/
 example : (gridPairs 2 3).map (fun p => gridIndex 3 p.1 p.2) = [0, 1, 2, 3, 4, 5] := by decide
 
+/-! ## Round 4 -/
+
+section simspec
+variable {σ : Type}
+
+/-- the simulation relation between the object and the counting specification -/
+def SimRel (traj : Nat → σ) (L : Nat) (s : Sim σ) (a : SimSpec) : Prop :=
+  s.target = (List.range L).map traj ∧ s.cursor = a.served ∧ s.data = a.last.map traj
+
+theorem simRel_step (traj : Nat → σ) (L : Nat) (s : Sim σ) (a : SimSpec) (h : SimRel traj L s a) (op : SimOp) :
+    SimRel traj L (s.step op).1 (a.step L op).1 ∧ (s.step op).2 = SimOut.mapIdx traj (a.step L op).2 := by
+  obtain ⟨ht, hc, hd⟩ := h
+  have hlen : s.target.length = L := by rw [ht]; simp
+  cases op with
+  | buffer =>
+    by_cases hlt : a.served < L
+    · have h1 : ¬ (s.cursor ≥ s.target.length) := by rw [hlen, hc]; omega
+      simp only [Sim.step, if_neg h1, SimSpec.step, if_pos hlt]
+      refine ⟨⟨ht, by rw [hc], ?_⟩, rfl⟩
+      simp only [Option.map_some]
+      rw [ht, hc, List.getElem?_map, List.getElem?_range hlt]; rfl
+    · have h1 : s.cursor ≥ s.target.length := by rw [hlen, hc]; omega
+      simp only [Sim.step, if_pos h1, SimSpec.step, if_neg hlt]
+      exact ⟨⟨ht, hc, hd⟩, rfl⟩
+  | get => exact ⟨⟨ht, hc, hd⟩, by simp [Sim.step, SimSpec.step, SimOut.mapIdx, hd]⟩
+  | reset => exact ⟨⟨ht, rfl, hd⟩, rfl⟩
+  | other => exact ⟨⟨ht, hc, hd⟩, rfl⟩
+
+theorem simRel_run (traj : Nat → σ) (L : Nat) (ops : List SimOp) :
+    ∀ (s : Sim σ) (a : SimSpec), SimRel traj L s a →
+      SimRel traj L (s.run ops).1 (SimSpec.run L a ops).1 ∧
+      (s.run ops).2 = (SimSpec.run L a ops).2.map (SimOut.mapIdx traj) := by
+  induction ops with
+  | nil => intro s a h; exact ⟨h, rfl⟩
+  | cons op ops ih =>
+    intro s a h
+    obtain ⟨h1, h2⟩ := simRel_step traj L s a h op
+    obtain ⟨h3, h4⟩ := ih _ _ h1
+    refine ⟨by simpa [Sim.run, SimSpec.run] using h3, ?_⟩
+    simp only [Sim.run, SimSpec.run, List.map_cons, h2, h4]
+
+/-- **Refinement.**  For every trajectory length, every state model (`step k` = the k-th `motion` call,
+    whatever it does — dynamic dispatch included) and every finite sequence of calls, the complete list
+    of answers of a `SimulatedStateModel` is the list of answers of the counting specification
+    "serve states 0, 1, 2, … in order, refuse after the last, restart on reset", read through
+    `k ↦ x_k` with `x_0 = x0`, `x_{k+1} = motion_k(x_k)`. -/
+theorem sim_refines_spec (step : Nat → σ → σ) (x0 : σ) (L : Nat) (ops : List SimOp) :
+    ((simCtor step x0 L).run ops).2
+      = (SimSpec.run L { served := 0, last := none } ops).2.map (SimOut.mapIdx (simTraj step x0)) ∧
+    ((simCtor step x0 L).run ops).1.cursor = (SimSpec.run L { served := 0, last := none } ops).1.served ∧
+    simTraj step x0 0 = x0 ∧ ∀ k, simTraj step x0 (k + 1) = step k (simTraj step x0 k) := by
+  have h0 : SimRel (simTraj step x0) L (simCtor step x0 L) { served := 0, last := none } := ⟨rfl, rfl, rfl⟩
+  obtain ⟨⟨_, hc, _⟩, ho⟩ := simRel_run (simTraj step x0) L ops _ _ h0
+  exact ⟨ho, hc, rfl, fun _ => rfl⟩
+
+/-- The specification serves in order: it never hands out an index `≥ L`, and what `getData` shows is
+    always the index handed out last. -/
+theorem simSpec_in_order (L : Nat) (ops : List SimOp) :
+    (SimSpec.run L { served := 0, last := none } ops).1.served ≤ L ∧
+    (∀ i, (SimSpec.run L { served := 0, last := none } ops).1.last = some i → i < L) := by
+  have key : ∀ (ops : List SimOp) (a : SimSpec), (a.served ≤ L ∧ ∀ i, a.last = some i → i < L) →
+      ((SimSpec.run L a ops).1.served ≤ L ∧ ∀ i, (SimSpec.run L a ops).1.last = some i → i < L) := by
+    intro ops
+    induction ops with
+    | nil => intro a h; exact h
+    | cons op ops ih =>
+      intro a h
+      have hstep : (a.step L op).1.served ≤ L ∧ ∀ i, (a.step L op).1.last = some i → i < L := by
+        cases op with
+        | buffer =>
+          by_cases hlt : a.served < L
+          · simp only [SimSpec.step, if_pos hlt]
+            exact ⟨hlt, fun i hi => by cases hi; exact hlt⟩
+          · simp only [SimSpec.step, if_neg hlt]; exact h
+        | get => exact h
+        | reset => exact ⟨Nat.zero_le _, h.2⟩
+        | other => exact h
+      simpa [SimSpec.run] using ih _ hstep
+  exact key ops _ ⟨Nat.zero_le _, fun i hi => by cases hi⟩
+
+end simspec
+
+/-- non-vacuity: a three-state trajectory driven through `b g b r g b g b b b` -/
+example : (SimSpec.run 3 { served := 0, last := none }
+    [.buffer, .get, .buffer, .reset, .get, .buffer, .get, .buffer, .buffer, .buffer]).2
+    = [.flag true, .data (some 0), .flag true, .flag true, .data (some 1), .flag true, .data (some 0),
+       .flag true, .flag true, .flag false] := by rfl
+
+/-- One call of `getNoiseSample(a + b)` is the call with `a` columns followed by the call with `b`
+    columns on the same generator (column-major fill): long requests at any boundary equal the
+    concatenation of shorter ones, and the generator ends at the same position. -/
+theorem noise_sample_split {n : Nat} (S : Mat ℝ n n) (r : Rng ℝ) (a b : Nat) :
+    (∀ (i : Fin n) (j : Fin (a + b)),
+      (noiseSample S r (a + b)).1 i j =
+        if h : j.val < a then (noiseSample S r a).1 i ⟨j.val, h⟩
+        else (noiseSample S (noiseSample S r a).2 b).1 i ⟨j.val - a, by omega⟩) ∧
+    (noiseSample S (noiseSample S r a).2 b).2.pos = (noiseSample S r (a + b)).2.pos := by
+  refine ⟨fun i j => ?_, ?_⟩
+  · by_cases h : j.val < a
+    · simp only [dif_pos h, noiseSample, Rng.draw, wnaSample, Mat.mul_apply, fillCM, Mat.eval_eq, Mat.of_apply]
+    · simp only [dif_neg h, noiseSample, Rng.draw, wnaSample, Mat.mul_apply, fillCM, Mat.eval_eq, Mat.of_apply]
+      obtain ⟨t, ht⟩ : ∃ t, j.val = a + t := ⟨j.val - a, by omega⟩
+      have e : ∀ l : Nat, r.pos + j.val * n + l = r.pos + n * a + (j.val - a) * n + l := by
+        intro l; rw [ht, Nat.add_sub_cancel_left]; ring
+      simp only [e]
+  · simp only [noiseSample, Rng.draw]; ring
+
+/-- The transition density of a batch of pairs is the map of the single-pair density over the pairs:
+    value `i` depends on `(previous_i, current_i)` only (batches of any two sizes that hold the same
+    pair in positions `i` and `i'` agree there). -/
+theorem wna_transition_pairwise {n N N' : Nat} (inv : Mat ℝ n n → Mat ℝ n n) (det : Mat ℝ n n → ℝ)
+    (F Q : Mat ℝ n n) (prev cur : Mat ℝ n N) (prev' cur' : Mat ℝ n N') (i : Fin N) (i' : Fin N')
+    (hp : ∀ r, prev r i = prev' r i') (hc : ∀ r, cur r i = cur' r i') :
+    wnaTransition inv det F Q prev cur i = wnaTransition inv det F Q prev' cur' i' := by
+  have hcol : (cur.sub (F.mul prev)).col i = (cur'.sub (F.mul prev')).col i' := by
+    ext r; simp [Mat.col, Mat.mul_apply, hp, hc]
+  simp only [wnaTransition, gaussDensity, Vec.of_apply, hcol]
+
+/-- Component indices are natural numbers, never narrowed: an index congruent to a valid component
+    modulo `2^32` (or any other power of two) is rejected like every index `≥ n`. -/
+theorem linear_index_not_narrowed (n : Nat) (idx : List Nat) (rr rc : Nat) (c k w : Nat)
+    (hk : 0 < k) (hn : n ≤ 2 ^ w) (hmem : c + k * 2 ^ w ∈ idx) :
+    linearModelCtor n idx rr rc = false := by
+  cases hctor : linearModelCtor n idx rr rc with
+  | false => rfl
+  | true =>
+    have h := ((linear_H_selects n idx rr rc).1.mp hctor).2.2.2.2 _ hmem
+    have : 2 ^ w ≤ k * 2 ^ w := Nat.le_mul_of_pos_left _ hk
+    omega
+
+/-- `Q` is a covariance for every `T ≥ 0`, `q ≥ 0` (positive semidefinite, also at the boundary
+    `T = 0` or `q = 0` where it is singular). -/
+theorem wna_Q_posSemidef (dim : Dim) {T q : ℝ} (hT : 0 ≤ T) (hq : 0 ≤ q) : (toM (wnaQ dim T q)).PosSemidef := by
+  rw [toM_wnaQ]
+  refine Matrix.PosSemidef.smul ?_ hq
+  rw [Matrix.reindex_apply]
+  exact (blockDiagonal_posSemidef fun _ => Q2_posSemidef hT).submatrix _
+
+section sensorspec
+variable {α : Type} [Add α] [Mul α] [Zero α] [Inhabited α] {n m : Nat}
+
+/-- what the measurement numbered `(k, d)` of the specification is: `H x_k + S_R z_d`, `z_d` the `d`-th
+    noise vector (draws `p0 + d m … p0 + d m + m − 1` of the sensor's generator) -/
+def sensorMeasAt (H : Mat α m n) (SR : Mat α m m) (traj : Nat → Vec α n) (stream : Nat → α) (p0 : Nat) (kd : Nat × Nat) : Vec α m :=
+  sensorMeasurement H SR (traj kd.1) ((Rng.draw ⟨stream, p0 + kd.2 * m⟩ m 1).1.col ⟨0, Nat.one_pos⟩)
+
+/-- simulation relation between the sensor object and the counting specification -/
+def SensorRel (H : Mat α m n) (SR : Mat α m m) (traj : Nat → Vec α n) (stream : Nat → α) (p0 L : Nat)
+    (s : Sensor α n m) (a : SensorSpec) : Prop :=
+  s.sim.target = (List.range L).map traj ∧ s.sim.cursor = a.served ∧ a.served ≤ L ∧
+  s.rng.stream = stream ∧ s.rng.pos = p0 + a.draws * m ∧
+  s.meas = a.meas.map (sensorMeasAt H SR traj stream p0)
+
+theorem sensorRel_step (H : Mat α m n) (SR : Mat α m m) (traj : Nat → Vec α n) (stream : Nat → α) (p0 L : Nat)
+    (s : Sensor α n m) (a : SensorSpec) (h : SensorRel H SR traj stream p0 L s a) (op : SensorOp) :
+    SensorRel H SR traj stream p0 L (s.step H SR op).1 (a.step L op).1 ∧
+    (s.step H SR op).2 = SensorOut.mapVal (sensorMeasAt H SR traj stream p0) (a.step L op).2 := by
+  obtain ⟨ht, hc, hle, hs, hp, hm⟩ := h
+  have hlen : s.sim.target.length = L := by rw [ht]; simp
+  cases op with
+  | freeze =>
+    by_cases hlt : a.served < L
+    · have h1 : s.sim.cursor < s.sim.target.length := by rw [hlen, hc]; exact hlt
+      have hget : s.sim.target[s.sim.cursor]'h1 = traj a.served := by
+        have : s.sim.target[s.sim.cursor]? = some (traj a.served) := by
+          rw [ht, hc, List.getElem?_map, List.getElem?_range hlt]; rfl
+        exact Option.some.inj ((List.getElem?_eq_getElem h1).symm.trans this)
+      have hrng : s.rng = ⟨stream, p0 + a.draws * m⟩ := by
+        cases hr : s.rng with
+        | mk st ps => simp only [hr] at hs hp; subst hs; subst hp; rfl
+      simp only [Sensor.step, sensorFreeze_lt H SR s h1, SensorSpec.step, if_pos hlt, SensorOut.mapVal]
+      refine ⟨⟨ht, by simp [hc], hlt, ?_, ?_, ?_⟩, trivial⟩
+      · simp [Rng.draw, hs]
+      · simp only [Rng.draw, hp]; ring
+      · simp only [Option.map_some, sensorMeasAt, hget, hrng]
+    · have h1 : s.sim.target.length ≤ s.sim.cursor := by rw [hlen, hc]; omega
+      simp only [Sensor.step, sensorFreeze_ge H SR s h1, SensorSpec.step, if_neg hlt, SensorOut.mapVal]
+      exact ⟨⟨ht, hc, hle, hs, hp, hm⟩, trivial⟩
+  | measure =>
+    exact ⟨⟨ht, hc, hle, hs, hp, hm⟩, by simp [Sensor.step, SensorSpec.step, SensorOut.mapVal, sensorMeasure, hm]⟩
+  | reset =>
+    exact ⟨⟨ht, rfl, Nat.zero_le _, hs, hp, hm⟩, rfl⟩
+  | buffer =>
+    by_cases hlt : a.served < L
+    · have h1 : s.sim.cursor < s.sim.target.length := by rw [hlen, hc]; exact hlt
+      simp only [Sensor.step, step_buffer_lt s.sim h1, SensorSpec.step, if_pos hlt, SensorOut.mapVal]
+      exact ⟨⟨ht, by simp [hc], hlt, hs, hp, hm⟩, trivial⟩
+    · have h1 : s.sim.target.length ≤ s.sim.cursor := by rw [hlen, hc]; omega
+      simp only [Sensor.step, step_buffer_ge s.sim h1, SensorSpec.step, if_neg hlt, SensorOut.mapVal]
+      exact ⟨⟨ht, hc, hle, hs, hp, hm⟩, trivial⟩
+
+theorem sensorRel_run (H : Mat α m n) (SR : Mat α m m) (traj : Nat → Vec α n) (stream : Nat → α) (p0 L : Nat)
+    (ops : List SensorOp) :
+    ∀ (s : Sensor α n m) (a : SensorSpec), SensorRel H SR traj stream p0 L s a →
+      SensorRel H SR traj stream p0 L (Sensor.run H SR s ops).1 (SensorSpec.run L a ops).1 ∧
+      (Sensor.run H SR s ops).2 = (SensorSpec.run L a ops).2.map (SensorOut.mapVal (sensorMeasAt H SR traj stream p0)) := by
+  induction ops with
+  | nil => intro s a h; exact ⟨h, rfl⟩
+  | cons op ops ih =>
+    intro s a h
+    obtain ⟨h1, h2⟩ := sensorRel_step H SR traj stream p0 L s a h op
+    obtain ⟨h3, h4⟩ := ih _ _ h1
+    exact ⟨by simpa [Sensor.run, SensorSpec.run] using h3, by simp only [Sensor.run, SensorSpec.run, List.map_cons, h2, h4]⟩
+
+/-- **Refinement of the sensor.**  For every state model, trajectory length, measured-component matrix `H`,
+    noise factor `S_R`, generator stream and every finite sequence of `freeze` / `measure` / reset /
+    direct `bufferData` calls, the complete list of answers of a `SimulatedLinearSensor` is the list of
+    answers of the counting specification, a stored measurement numbered `(k, d)` being
+    `H x_k + S_R z_d` with `x_k` the `k`-th state of `x_{k+1} = motion_k(x_k)` and `z_d` the `d`-th
+    block of `m` draws; the generator has then advanced by `m` draws per successful `freeze`. -/
+theorem sensor_refines_spec (H : Mat α m n) (SR : Mat α m m) (step : Nat → Vec α n → Vec α n) (x0 : Vec α n)
+    (L : Nat) (stream : Nat → α) (p0 : Nat) (ops : List SensorOp) :
+    (Sensor.run H SR { sim := simCtor step x0 L, meas := none, rng := ⟨stream, p0⟩ } ops).2
+      = (SensorSpec.run L { served := 0, draws := 0, meas := none } ops).2.map
+          (SensorOut.mapVal (sensorMeasAt H SR (simTraj step x0) stream p0)) ∧
+    (Sensor.run H SR { sim := simCtor step x0 L, meas := none, rng := ⟨stream, p0⟩ } ops).1.rng.pos
+      = p0 + (SensorSpec.run L { served := 0, draws := 0, meas := none } ops).1.draws * m ∧
+    (Sensor.run H SR { sim := simCtor step x0 L, meas := none, rng := ⟨stream, p0⟩ } ops).1.sim.cursor
+      = (SensorSpec.run L { served := 0, draws := 0, meas := none } ops).1.served := by
+  have h0 : SensorRel H SR (simTraj step x0) stream p0 L
+      { sim := simCtor step x0 L, meas := none, rng := ⟨stream, p0⟩ } { served := 0, draws := 0, meas := none } :=
+    ⟨rfl, rfl, Nat.zero_le _, rfl, by simp, rfl⟩
+  obtain ⟨⟨_, hc, _, _, hp, _⟩, ho⟩ := sensorRel_run H SR (simTraj step x0) stream p0 L ops _ _ h0
+  exact ⟨ho, hp, hc⟩
+
+end sensorspec
+
+/-- over ℝ: the measurement numbered `(k, d)` is `H x_k + S_R z_d` entry by entry -/
+theorem sensorMeasAt_eq {n m : Nat} (H : Mat ℝ m n) (SR : Mat ℝ m m) (traj : Nat → Vec ℝ n) (stream : Nat → ℝ) (p0 : Nat) (kd : Nat × Nat) :
+    toV (sensorMeasAt H SR traj stream p0 kd)
+      = toM H *ᵥ toV (traj kd.1) + toM SR *ᵥ (fun i : Fin m => stream (p0 + kd.2 * m + i.val)) := by
+  rw [sensorMeasAt, sensorMeasurement_eq]
+  congr 2
+  ext i
+  simp [Rng.draw, fillCM, Mat.col]
+
+
+/-- non-vacuity: two states, `f m f m f m r f m` — the third freeze is refused and keeps measurement (1, 1);
+    after the reset state 0 is measured again with the third noise vector -/
+example : (SensorSpec.run 2 { served := 0, draws := 0, meas := none }
+    [.freeze, .measure, .freeze, .measure, .freeze, .measure, .reset, .freeze, .measure]).2
+    = [.flag true, .meas true (some (0, 0)), .flag true, .meas true (some (1, 1)), .flag false, .meas true (some (1, 1)),
+       .flag true, .flag true, .meas true (some (0, 2))] := by rfl
+
 end BFL.Models
